@@ -494,7 +494,7 @@ func init() {
 		Explanation: "Decides the structural clause 'no unchecked dynamic-type assumption on client-derived values in parse/plan code, and the per-entry recover barriers exist': every non-comma-ok type assertion in the parse/plan region is dominated by a successful comma-ok test or has a construction-fixed dynamic type; (*table).insert and (*DB).mapPartitionRequest install recover() first and spawn nothing below; a rejected entry still advances the WAL offset. Added clauses: a recovered panic in mapPartitionRequest still reports a result; string slices at searched positions are bounds-safe; no mutex is held without defer across goexpr Eval on the recovered ingest path.",
 		NotDecided:  []string{"panics from index/nil/arithmetic inside sqlparser, goexpr, bytemap on arbitrary bytes (no barrier at sql.Parse, and none is added)", "semantic validation of arities beyond what produces a dynamic-type assumption", "panics in goroutines without a barrier other than the two per-entry workers"},
 		Assumptions: []string{"the parse/plan region is closed under static calls and the listed plan-time interface methods"},
-		Rules:       []func(*Ctx){ruleC16a, ruleC16b, ruleC16c, func(c *Ctx) { ruleC16d(c, "C16.d") }, func(c *Ctx) { ruleC16e(c, "C16.e") }, func(c *Ctx) { ruleC16f(c, "C16.f") }, func(c *Ctx) { ruleC16g(c, "C16.g") }, func(c *Ctx) { ruleC16h(c, "C16.h") }},
+		Rules:       []func(*Ctx){ruleC16a, ruleC16b, ruleC16c, func(c *Ctx) { ruleC16d(c, "C16.d") }, func(c *Ctx) { ruleC16e(c, "C16.e") }, func(c *Ctx) { ruleC16f(c, "C16.f") }, func(c *Ctx) { ruleC16g(c, "C16.g") }, func(c *Ctx) { ruleC16h(c, "C16.h") }, func(c *Ctx) { ruleC16i(c, "C16.i") }, func(c *Ctx) { ruleC16j(c, "C16.j") }},
 	})
 }
 
@@ -1243,4 +1243,258 @@ func ruleC16h(c *Ctx, rule string) {
 		c.check(rule, "variadic function "+name+" gets the arguments it indexes", f.Pos(), declared >= need, "constructor needs "+itoa(int(need))+", the dispatch guarantees "+itoa(int(declared)), "the constructor registered for "+name+" indexes its argument list up to position "+itoa(int(need))+" unconditionally but the dispatch guarantees only "+itoa(int(declared))+" argument(s): "+name+"() with too few parameters panics inside sql.Parse / planning instead of returning an error")
 	}
 	c.floor(rule, "variadic dimension functions", len(names), 4)
+}
+
+// ---- small length-set domain for C16.i ----
+
+const lenTop = 12 // lengths 0..lenTop-1 exact, bit lenTop = "that or more"
+
+type lenSet uint32
+
+const lenAll lenSet = (1 << (lenTop + 1)) - 1
+
+func lenCmp(op token.Token, k int64) lenSet {
+	var s lenSet
+	for n := int64(0); n <= lenTop; n++ {
+		hold := false
+		switch op {
+		case token.EQL:
+			hold = n == k
+		case token.NEQ:
+			hold = n != k
+		case token.LSS:
+			hold = n < k
+		case token.LEQ:
+			hold = n <= k
+		case token.GTR:
+			hold = n > k
+		case token.GEQ:
+			hold = n >= k
+		}
+		if n == lenTop {
+			// "lenTop or more": holds if it holds for arbitrarily large n
+			switch op {
+			case token.NEQ, token.GTR, token.GEQ:
+				hold = true
+			case token.EQL, token.LSS, token.LEQ:
+				hold = k >= lenTop && op != token.EQL
+			}
+		}
+		if hold {
+			s |= 1 << uint(n)
+		}
+	}
+	return s
+}
+
+func flipOp(op token.Token) token.Token {
+	switch op {
+	case token.LSS:
+		return token.GTR
+	case token.GTR:
+		return token.LSS
+	case token.LEQ:
+		return token.GEQ
+	case token.GEQ:
+		return token.LEQ
+	}
+	return op
+}
+
+// lenSetOf: the lengths of slice 'of' under which boolean v has value pol.
+func lenSetOf(v ssa.Value, pol bool, of func(ssa.Value) bool, depth int) lenSet {
+	if depth > 6 {
+		return lenAll
+	}
+	v, pol = unNot(v, pol)
+	switch x := v.(type) {
+	case *ssa.BinOp:
+		isLen := func(y ssa.Value) bool {
+			cl, ok := y.(*ssa.Call)
+			return ok && isCall(cl, "builtin len") && of(cl.Call.Args[0])
+		}
+		op, a, b := x.Op, x.X, x.Y
+		if isLen(b) && !isLen(a) {
+			a, b, op = b, a, flipOp(op)
+		}
+		if k, ok := constInt(b); ok && isLen(a) {
+			s := lenCmp(op, k)
+			if !pol {
+				s = lenAll &^ s
+			}
+			return s
+		}
+	case *ssa.Phi:
+		if typeStr(x.Type()) != "bool" {
+			return lenAll
+		}
+		// a && b && … (edges: false…, last) or a || b || … (edges: true…, last)
+		var conds []atom
+		var last ssa.Value
+		kind := 0 // 1 = &&, 2 = ||
+		for i, e := range x.Edges {
+			if cb, isC := constBool(e); isC {
+				k := 1
+				if cb {
+					k = 2
+				}
+				if kind != 0 && kind != k {
+					return lenAll
+				}
+				kind = k
+				pred := x.Block().Preds[i]
+				ifi := ifOf(pred)
+				if ifi == nil {
+					return lenAll
+				}
+				// the condition value under which this edge was taken
+				taken := pred.Succs[0] == x.Block()
+				conds = append(conds, atom{ifi.Cond, taken})
+			} else {
+				if last != nil {
+					return lenAll
+				}
+				last = e
+			}
+		}
+		if kind == 0 || last == nil {
+			return lenAll
+		}
+		if kind == 1 {
+			// value = a1 && … && last, where edge i was taken when a_i was false
+			if pol {
+				s := lenSetOf(last, true, of, depth+1)
+				for _, cnd := range conds {
+					s &= lenSetOf(cnd.v, !cnd.pos, of, depth+1)
+				}
+				return s
+			}
+			s := lenSetOf(last, false, of, depth+1)
+			for _, cnd := range conds {
+				s |= lenSetOf(cnd.v, cnd.pos, of, depth+1)
+			}
+			return s
+		}
+		// value = a1 || … || last, edge i taken when a_i was true
+		if pol {
+			s := lenSetOf(last, true, of, depth+1)
+			for _, cnd := range conds {
+				s |= lenSetOf(cnd.v, cnd.pos, of, depth+1)
+			}
+			return s
+		}
+		s := lenSetOf(last, false, of, depth+1)
+		for _, cnd := range conds {
+			s &= lenSetOf(cnd.v, !cnd.pos, of, depth+1)
+		}
+		return s
+	}
+	return lenAll
+}
+
+// ruleC16i: arguments of SQL functions are indexed only within the arity that was checked.
+func ruleC16i(c *Ctx, rule string) {
+	c.describe(rule, "pathstate (length sets): in package sql every access e.Exprs[k] with a constant k to the argument list of a parsed function call is dominated by conditions on len(e.Exprs) that together imply len > k (equalities, inequalities and their && / || combinations are evaluated over the set of possible lengths) — a wrong-arity call such as PERCENTILE(a, 1, 2) must produce the arity error, not index out of range inside sql.Parse")
+	n := 0
+	for _, fn := range c.P.ModFns {
+		if pkgOf(fn) != "z/sql" {
+			continue
+		}
+		for _, in := range instrs(fn) {
+			ia, ok := in.(*ssa.IndexAddr)
+			if !ok {
+				continue
+			}
+			k, isK := constInt(ia.Index)
+			if !isK || fieldKeyOfLoad(ia.X) != "Exprs" || !strings.HasSuffix(typeStr(ia.X.Type()), "sqlparser.SelectExprs") {
+				continue
+			}
+			n++
+			c.touch(fn)
+			base, _, _ := fieldOf(ia.X)
+			s := lenSetAt(c.P, fn, ia.Block(), base, 0)
+			// lengths <= k must be excluded
+			var low lenSet
+			for i := int64(0); i <= k && i <= lenTop; i++ {
+				low |= 1 << uint(i)
+			}
+			top := topOf(fn)
+			c.check(rule, stableName(top)+": Exprs["+itoa(int(k))+"] #"+itoa(perTopCount(c, rule, top))+" is within the checked arity", ia.Pos(), s&low == 0, "the dominating conditions on len(e.Exprs) exclude every length <= "+itoa(int(k)), "e.Exprs["+itoa(int(k))+"] can be reached with fewer than "+itoa(int(k)+1)+" arguments: a function call with the wrong number of parameters panics (index out of range) inside the parser instead of returning the arity error")
+		}
+	}
+	c.floor(rule, "constant-index accesses to a function call's argument list", n, 10)
+}
+
+// lenSetAt: the possible lengths of base.Exprs when control is at block b of fn:
+// the union over all acyclic entry-to-b paths of the intersection of the path's
+// conditions; for a private helper with a single call site the set holding at
+// the call site is the starting point.
+func lenSetAt(P *Prog, fn *ssa.Function, b *ssa.BasicBlock, base ssa.Value, depth int) lenSet {
+	same := func(v ssa.Value) bool {
+		b2, f2, ok2 := fieldOf(v)
+		return ok2 && f2 != nil && f2.Name() == "Exprs" && (sameValue(b2, base) || strip(b2) == strip(base))
+	}
+	start := lenAll
+	if p, isP := strip(base).(*ssa.Parameter); isP && p.Parent() == fn && fn.Parent() == nil && depth < 3 {
+		sites := callSitesOf(P, fn)
+		if len(sites) == 1 && !sites[0].Common().IsInvoke() {
+			idx := -1
+			for i, q := range fn.Params {
+				if q == p {
+					idx = i
+				}
+			}
+			if idx >= 0 && idx < len(sites[0].Common().Args) {
+				start = lenSetAt(P, sites[0].Parent(), sites[0].Block(), sites[0].Common().Args[idx], depth+1)
+			}
+		}
+	}
+	var union lenSet
+	n, complete := pathsTo(fn.Blocks[0], b, func(p pathAtoms) bool {
+		s := start
+		for _, a := range p.atoms {
+			s &= lenSetOf(a.v, a.pos, same, 0)
+		}
+		union |= s
+		return true
+	})
+	if !complete || n == 0 {
+		return start
+	}
+	return union
+}
+
+func fieldKeyOfLoad(v ssa.Value) string {
+	_, f, ok := fieldOf(v)
+	if !ok || f == nil {
+		return ""
+	}
+	return f.Name()
+}
+
+// ruleC16j: raw client bytes are not decoded on the caller's goroutine.
+func ruleC16j(c *Ctx, rule string) {
+	c.describe(rule, "dom: (*DB).InsertRaw runs on the caller's goroutine, outside the per-entry recover barrier; the only decoding of the client-supplied raw byte maps it performs — bytemap.ByteMap.AsMap for trace output, which does no bounds checking — happens under log.IsTraceEnabled(); evaluated unconditionally (as an argument of Tracef) a truncated or garbled raw dimension map panics the caller instead of being skipped by the ingest barrier")
+	ir := c.need(rule, "(*z.DB).InsertRaw")
+	if ir == nil {
+		return
+	}
+	n := 0
+	for _, f := range withHelpers(c.P, ir) {
+		for _, call := range calls(f) {
+			cn := calleeName(call)
+			if cn != "(github.com/getlantern/bytemap.ByteMap).AsMap" && cn != "(github.com/getlantern/bytemap.ByteMap).Iterate" && cn != "(github.com/getlantern/bytemap.ByteMap).IterateValues" {
+				continue
+			}
+			n++
+			guarded := false
+			for _, g := range guardsAcross(c.P, call.Block(), ir) {
+				if cl, ok := g.v.(*ssa.Call); ok && g.pos && strings.HasSuffix(calleeName(cl), ".IsTraceEnabled") {
+					guarded = true
+				}
+			}
+			c.check(rule, "InsertRaw: decoding #"+itoa(n)+" of the raw byte map only for trace output", call.Pos(), guarded, "under log.IsTraceEnabled()", "InsertRaw decodes the client's raw byte map ("+cn+") unconditionally on the caller's goroutine: the decoder does no bounds checking, so a truncated or garbled map panics the inserting caller (e.g. the RPC handler) instead of being rejected or skipped")
+		}
+	}
+	c.floor(rule, "byte map decodings in InsertRaw", n, 1)
 }
